@@ -1919,6 +1919,10 @@ dnslabel_table_add(struct dnslabel_table *table, const char *label, off_t pos)
 	int p;
 	if (table->n_labels == MAX_LABELS)
 		return (-1);
+	/* A compression pointer holds a 14-bit offset: a position beyond
+	 * that cannot be referred to and must not be offered. */
+	if (pos > 0x3fff)
+		return (-1);
 	v = mm_strdup(label);
 	if (v == NULL)
 		return (-1);
